@@ -378,3 +378,34 @@ GLOBALS_ARGS = [['5']]
 def all_families():
     return ((many_locals_programs, LOCALS_ARGS), (many_params_programs, PARAMS_ARGS), (long_array_programs, ARRAY_ARGS), (many_labels_programs, LABELS_ARGS),
             (deep_nesting_programs, DEPTH_ARGS), (many_globals_programs, GLOBALS_ARGS))
+
+
+ENTRY_COUNTS = (4, 5, 6, 7, 8, 12, 20, 40)
+
+
+def many_entry_programs():
+    """@is_you with P scalar parameters of mixed type (P = 4..40), without / with an array parameter first / in the middle / last;
+    every parameter is printed, then a call and a local array follow (the entry frame is sized from the argument count).
+    yields (tag, Program, args)"""
+    text = {INT: ['-7', '300', '12', '0'], BYTE: ['65', '90', '48'], STRING: ['hey', '', 'x y']}
+    for P in ENTRY_COUNTS:
+        for arr_at in (None, 0, P // 2, P):
+            params, args, body = [], [], []
+            for i in range(P + 1):
+                if arr_at == i:
+                    t = Arr(INT, True)
+                    params.append(('arr', t, False))
+                    args += ['5', '-6', '7']
+                    a = Var('arr', t)
+                    body += [W(S('len=')), W(Len(a)), _mark(' '), W(Index(a, Lit(INT, 2))), _mark(' ')]
+                if i < P:
+                    kd = (INT, BYTE, INT, STRING, INT)[i % 5]
+                    nm = f'p{i}'
+                    params.append((nm, kd, False))
+                    args.append(text[kd][i % len(text[kd])])
+                    body += [_wi(Var(nm, kd)), _mark(',')]
+            first_int = next(nm for nm, kd, _ in params if kd == INT)
+            body += [Decl('loc', Arr(INT, False), ArrLit([Var(first_int, INT), Call(H, [Var(first_int, INT)]), _i(3)], INT, False)),
+                     W(Index(Var('loc', Arr(INT, False)), Lit(INT, 1))), _mark(' '), _wi(Var(f'p{P - 1}', (INT, BYTE, INT, STRING, INT)[(P - 1) % 5])), _mark('\n')]
+            main = Func('@is_you', params, EMPTY, body)
+            yield f'scale-entry/{P}/arr@{arr_at}', Program([], [main, H]), args
